@@ -726,7 +726,8 @@ class Translator:
         trig = self.ctx["triggers"].get(a)
         extra = [self.mk_set(self.var(k["var"]), "(.const 1)") for k in KNOWLEDGE.get(self.ctrl, []) if k["target"] == a and m in k["tells"]]
         if trig is not None and m in trig and a in TRACKED_GHOSTS.get(self.ctrl, ()):
-            return S.seq([self.mk_set(self.var("rq:" + a), f"(.const {self.name_id(m)})")] + extra)
+            # the effect marker keeps the told message visible to the composition semantics (Model/Compose.lean)
+            return S.seq([f"(.emit {self.name_id('tell:' + a + '.' + m)})", self.mk_set(self.var("rq:" + a), f"(.const {self.name_id(m)})")] + extra)
         return f"(.emit {self.name_id('tell:' + a + '.' + m)})"
 
     def inline(self, cname, mname, call, env, depth):
